@@ -1032,16 +1032,104 @@ def compile_alt(run, ctx):
             run.violation(fam, label, key, w, "compile_alt: %s; shape `%s` not found" % (what, pat))
         return m
     need("for {i} in 0..%s {" % COUNT, "order", "alternatives must be emitted in index order 0..count (priority = textual order)")
-    # for i in 0..count: "i is not the last index" has these equivalent spellings
-    m = need(["let {hn} = ({i} != (%s - 1));" % COUNT, "let {hn} = ((%s - 1) != {i});" % COUNT, "let {hn} = ((1 + {i}) < %s);" % COUNT,
-              "let {hn} = ({i} < (%s - 1));" % COUNT, "let {hn} = ((1 + {i}) != %s);" % COUNT], "has-next", "every alternative except the last needs a fallback")
-    HN = m.group("hn") if m else "has_next"
-    need("let {pc} = self.b.pc(); if %s {self.b.add(Insn::Split((1 + {pc}),MAX))};" % HN, "split", "a non-last alternative starts with Split(next instruction, <patched later>)")
-    need(["if (MAX != {last}) {self.b.set_split_target({last},{pc},true)}; {last} = {pc};",
-          "if let Some({prev}) = {last} {self.b.set_split_target({prev},{pc},true)}; {last} = Some({pc});"], "chain", "the previous alternative's Split falls back (second operand) to the start of this alternative")
-    need("%s(self,{i})?; if %s {let {p2} = self.b.pc(); {jmps}.push({p2}); self.b.add(Insn::Jmp(0))}" % (HANDLE, HN), "jump", "after a non-last alternative a Jmp (patched to the end) skips the remaining alternatives")
+    # the loop body, path by path.  Program counters read at different moments are different values: every
+    # `self.b.pc()` is named after the number of emissions (self.b.add / the alternative's own code) before it
+    loops = [nd for nd in H.walk(fn["body"]) if nd.get("k") == "For" and H.canon(nd["iter"]) == "0..%s" % COUNT]
+    if len(loops) == 1:
+        lp = loops[0]
+        I = H.pat_canon(lp["pat"])
+        spell = {"(%s != (%s - 1))" % (I, COUNT), "((%s - 1) != %s)" % (COUNT, I), "((1 + %s) < %s)" % (I, COUNT),
+                 "(%s < (%s - 1))" % (I, COUNT), "((1 + %s) != %s)" % (I, COUNT)}
+        inits = {}
+        for nd in H.walk(fn["body"]):
+            if nd.get("k") == "Let" and nd["pat"].get("k") == "Binding" and nd.get("init") is not None and nd is not lp:
+                inits.setdefault(nd["pat"]["name"], H.canon(nd["init"]))
+        combos = {}
+        bad = None
+        for p in S.paths_of(lp["body"]):
+            if p.exit == "try-err":
+                if not any(ev.kind == "call" and (ev.a or "").startswith("%s(" % HANDLE) for ev in p.events):
+                    bad = "the loop body fails before the alternative's own code"
+                continue
+            env, epoch = {}, 0
+            hn = hl = None
+            adds, ssts, pushes, handles, last_final, last_name = [], [], [], [], None, None
+            handled = False
+
+            def val(t):
+                return H.subst_lets(t or "", env).replace("self.b.pc()", "PC%d" % epoch)
+            for ev in p.events:
+                if ev.kind == "let" and re.match(r"^\w+$", ev.a or "") and ev.b is not None:
+                    env[ev.a] = val(ev.b)
+                elif ev.kind == "cond":
+                    t = val(ev.a)
+                    if t in spell:
+                        hn = bool(ev.b) if hn is None or hn == bool(ev.b) else "contradictory"
+                    m_ = re.match(r"^\(MAX (!=|==) (\w+)\)$", t) or re.match(r"^\((\w+) (!=|==) MAX\)$", t)
+                    if m_:
+                        op_ = m_.group(1) if m_.group(1) in ("!=", "==") else m_.group(2)
+                        nm_ = m_.group(2) if m_.group(1) in ("!=", "==") else m_.group(1)
+                        if inits.get(nm_) == "MAX":
+                            hl, last_name = (bool(ev.b) if op_ == "!=" else not ev.b), nm_
+                            env.setdefault("@payload", nm_)
+                elif ev.kind == "letcond":
+                    m_ = re.match(r"^Some\((\w+)\)$", ev.a or "")
+                    if m_ and inits.get(ev.b) == "None":
+                        hl, last_name = bool(ev.c), ev.b
+                        if ev.c:
+                            env[m_.group(1)] = "@prev"
+                            env["@payload"] = "@prev"
+                elif ev.kind == "assign" and re.match(r"^\w+$", ev.a or ""):
+                    v_ = val(ev.c) if ev.b == "=" else "?"
+                    env[ev.a] = v_
+                    if inits.get(ev.a) in ("MAX", "None"):
+                        last_final = (ev.a, v_, inits.get(ev.a))
+                elif ev.kind == "call":
+                    t = val(ev.a)
+                    if t.startswith("self.b.add("):
+                        adds.append((epoch, t, handled))
+                        epoch += 1
+                    elif t.startswith("self.b.set_split_target("):
+                        ssts.append((t, handled))
+                    elif t.startswith("%s(" % HANDLE):
+                        handles.append(t)
+                        handled = True
+                        epoch += 1
+                    elif ".push(" in t and t.split(".push(")[0] in inits:
+                        pushes.append((t.split(".push(")[0], t.split(".push(", 1)[1][:-1], epoch))
+                    elif t.startswith("self.b.") and not t.startswith("self.b.pc("):
+                        bad = "unexpected builder call %s" % t
+            if hn == "contradictory":
+                continue        # the same test answered differently twice: not a feasible path
+            if hn not in (True, False) or hl not in (True, False):
+                bad = "a path through the loop body does not decide `is there a next alternative` (i != count - 1) and `is there a previous Split to patch` (found %s / %s)" % (hn, hl)
+                break
+            combos[(hn, hl)] = combos.get((hn, hl), 0) + 1
+            prevv = last_name if inits.get(last_name) == "MAX" else "@prev"
+            want_adds = [(0, "self.b.add(Insn::Split((1 + PC0),MAX))", False)] if hn else []
+            if handles != ["%s(self,%s)" % (HANDLE, I)]:
+                bad = "every alternative is compiled exactly once, by %s(self, %s) (found %s)" % (HANDLE, I, handles)
+            elif [a_ for a_ in adds if not a_[2]] != want_adds:
+                bad = "a non-last alternative starts with Split(next instruction, <patched later>) as its first instruction, the last one with no Split (has_next=%s: %s)" % (hn, adds)
+            elif ssts != ([("self.b.set_split_target(%s,PC0,true)" % prevv, False)] if hl else []):
+                bad = "the previous alternative's Split falls back (second operand) to the start of this alternative, and nothing is patched before the first (previous=%s: %s)" % (hl, ssts)
+            elif last_final is None or last_final[1] != ("PC0" if last_final[2] == "MAX" else "Some(PC0)"):
+                bad = "the start of this alternative must be remembered for the next one (found %s)" % (last_final,)
+            else:
+                after = [a_ for a_ in adds if a_[2]]
+                if hn:
+                    if len(after) != 1 or after[0][1] != "self.b.add(Insn::Jmp(0))" or len(pushes) != 1 or pushes[0][1] != "PC%d" % after[0][0] or inits.get(pushes[0][0]) != "Vec::new()":
+                        bad = "after a non-last alternative a Jmp (patched to the end) skips the remaining alternatives, and its own pc is recorded for patching (adds %s, recorded %s)" % (after, pushes)
+                elif after or pushes:
+                    bad = "the last alternative falls through: no Jmp, nothing recorded (adds %s, recorded %s)" % (after, pushes)
+            if bad:
+                break
+        n += 4
+        if bad:
+            run.violation(fam, label, "loop-body", H.where(lp), "compile_alt: %s" % bad)
+        elif set(combos) != {(True, True), (True, False), (False, True), (False, False)}:
+            run.violation(fam, label, "loop-body/cases", H.where(lp), "anchor-missing: compile_alt's loop body should decide next-alternative x previous-Split in all four combinations (found %s)" % sorted(combos))
     need("let {np} = self.b.pc(); for {j} in {jmps} {self.b.set_jmp_target({j},{np})}; Ok(())", "join", "all jumps are patched to the first instruction after the alternation")
-    need(["let {last} = MAX;", "let {last} = None;"], "last-init", "no Split is patched before the first alternative")
     run.ok(fam, label, w, n, "Split(+1, next alternative) ... Jmp(end) chain in index order")
 
 
